@@ -4,25 +4,41 @@
     with per-transaction answers, restarts) are run on
       - the model [Tx/Publish.v] instantiated with the facts regenerated from
         the current source ([code_cfg], Tx/PublishCode.v), and
-      - the specification ([spec_publish], [spec_resend_list expected_cfg]:
-        the property's text as a function of the ledger facts),
+      - the specification ([spec_publish_text], [spec_resend_text]: the
+        property's text as a function of the ledger
+        facts and of what the backend MEANT - the truth of the answer, stated
+        by the harness independently of btcwallet's error mapping; where the
+        text leaves a choice, "already known / confirmed", the choice of the
+        code is taken as long as it is one the text admits),
     and both are compared with what the real wallet reported after every
     event (balances, spendable set, unconfirmed set, result class).  For a
     re-broadcast the observed sequence of SendRawTransaction calls must pass
     [Kahn.admissible] for the unconfirmed set before it - which is exactly
     "every unconfirmed transaction once, parents first" (C14) and exactly the
     set of sequences the model's [resend] can produce; the model's loop is
-    then run on that sequence. *)
-From stdpp Require Import gmap list numbers sorting.
-From Coq Require Import ZArith NArith.
+    then run on that sequence.
+
+    The answer of the model is the error's relation to the sentinels of
+    package chain ([ASentinel name]: errors.Is(err, chain.name)), as the
+    harness observed it AFTER the real MapRPCErr when the scripted answer was
+    a node's raw reply.
+
+    Mapping cases ([mcase]): the real MapRPCErr of a backend flavour was run
+    on a text; the class of the sentinel it produced must be a class the model
+    of MapRPCErr ([map_candidates] over the regenerated tables) allows (only
+    the class is compared - it is all the theorems depend on), and it must be
+    compatible with the truth: a rejection stays a rejection, "in my mempool"
+    stays "in my mempool". *)
+From stdpp Require Import gmap list numbers sorting strings.
+From Coq Require Import ZArith NArith Strings.String.
 From Verif Require Import Tx.Store Tx.Ledger Tx.Hist Tx.StoreCorr Tx.Publish Tx.PublishCode.
 From Verif Require Tx.Kahn.
 Local Open Scope Z_scope.
 
 Inductive wevent :=
 | WStore (e : event)                              (* notification handler / LeaseOutput *)
-| WPublish (t : txid) (a : answer) (ok : bool)    (* PublishTransaction, SendOutputs *)
-| WResend (offered : list txid) (answers : list answer)  (* observed order, scripted answers *)
+| WPublish (t : txid) (a truth : answer) (ok : bool)    (* PublishTransaction, SendOutputs *)
+| WResend (offered : list txid) (answers truths : list answer)  (* observed order, scripted answers *)
 | WNop.                                           (* restart; a send that failed before recording *)
 
 Record wobs := {
@@ -71,19 +87,19 @@ Section obs.
       let '(m', o) := step U m ev in
       (m', spec_step U sm ev,
        (if ok then [] else [901%nat]) ++ (match o with OFuel => [902%nat] | _ => [] end))
-    | WPublish t a nok =>
+    | WPublish t a truth nok =>
       let ok := event_ok U (fs sm) (Seen t) in
       let '(r, s') := publish code_cfg U t a nok (st m) in
       ({| st := s'; clock := clock m |},
-       {| fs := spec_publish U (fs sm) t a nok; sclock := sclock sm |},
+       {| fs := spec_publish_text code_cfg U (fs sm) t a truth nok; sclock := sclock sm |},
        (if ok then [] else [901%nat]) ++ (match r with PFuel => [902%nat] | _ => [] end)
        ++ first_fail [ (eqb_on (res_code r) (wo_res io), 30%nat);
-                       (eqb_on (res_code (expected_result a nok)) (wo_res io), 130%nat) ])
-    | WResend offered answers =>
+                       (eqb_on (res_code (text_result code_cfg a truth nok)) (wo_res io), 130%nat) ])
+    | WResend offered answers truths =>
       let adm := Kahn.admissible (unmined_set U (st m)) offered in
       let '(rs, s') := resend_list code_cfg U offered answers (st m) in
       ({| st := s'; clock := clock m |},
-       {| fs := spec_resend_list expected_cfg U offered answers (fs sm); sclock := sclock sm |},
+       {| fs := spec_resend_text code_cfg U offered answers truths (fs sm); sclock := sclock sm |},
        (if existsb (fun r => bool_decide (r = PFuel)) rs then [902%nat] else [])
        ++ first_fail [ (adm, 131%nat) ])
     | WNop => (m, sm, [])
@@ -102,7 +118,7 @@ Fixpoint check_wevents (U : universe) (c : wcase) (i : nat) (m : mstate) (sm : s
 
 Definition check_wcase (c : wcase) : list (nat * nat) :=
   let U := universe_of (wc_universe c) in
-  (if wf_universe U && bool_decide (size U = length (wc_universe c)) then [] else [(0%nat, 905%nat)])
+  (if wf_universe U && bool_decide (size U = List.length (wc_universe c)) then [] else [(0%nat, 905%nat)])
   ++ check_wevents U c 0 init_state {| fs := empty_facts; sclock := 0 |} (wc_events c).
 
 Fixpoint wfailures_from (i : nat) (l : list wcase) : list (nat * nat * nat) :=
@@ -113,3 +129,45 @@ Fixpoint wfailures_from (i : nat) (l : list wcase) : list (nat * nat * nat) :=
 
 (** (case index, event index, code) of every disagreement *)
 Definition wfailures := wfailures_from 0.
+
+(** * The error mapping *)
+Record mrow := {
+  mr_backend : backend;
+  mr_text : string;              (* err.Error() of what the node's reply became in rpcclient *)
+  mr_mapped : string;            (* the sentinel the result of the real MapRPCErr Is ("" = none) *)
+  mr_truth : option answer;      (* what the node means (class), when the harness knows *)
+}.
+
+Definition class_eqb (a b : answer) : bool := answer_eqb (class_of a) (class_of b).
+
+(** codes: 40 the class of the mapped sentinel is not one the model of
+    MapRPCErr allows for this text; 140 a rejection came out as an "I have it"
+    class; 141 "in my mempool" came out as another class *)
+Definition check_mrow (r : mrow) : list nat :=
+  let cands := map_candidates code_tables (mr_backend r) (mr_text r) in
+  let got := ASentinel (mr_mapped r) in
+  first_fail
+    [ (existsb (fun c => class_eqb (ASentinel c) got) cands, 40%nat);
+      (match mr_truth r with
+       | Some t => negb (is_rejection t) || is_rejection got
+       | None => true
+       end, 140%nat);
+      (match mr_truth r with
+       | Some t => negb (class_eqb t AInMempool) || class_eqb got AInMempool
+       | None => true
+       end, 141%nat) ].
+
+Fixpoint check_mrows (i : nat) (l : list mrow) : list (nat * nat) :=
+  match l with
+  | [] => []
+  | r :: l' => map (fun code => (i, code)) (check_mrow r) ++ check_mrows (S i) l'
+  end.
+
+Fixpoint mfailures_from (i : nat) (l : list (list mrow)) : list (nat * nat * nat) :=
+  match l with
+  | [] => []
+  | c :: l' => map (fun '(e, code) => (i, e, code)) (check_mrows 0 c) ++ mfailures_from (S i) l'
+  end.
+
+(** (case index, row index, code) of every disagreement *)
+Definition mfailures := mfailures_from 0.
